@@ -458,7 +458,7 @@ c14_align!(c14_align_u32_skewed_sync, sync::Arena, u32, true);
 c14_align!(c14_align_u16_plain_sync, sync::Arena, u16, false);
 // @h props=C14 tier=thorough timeout=900 bounds=arena=64,skewed-handle,len:any,T=u64
 c14_align!(c14_align_u64_skewed_unsync, unsync::Arena, u64, true);
-// @h props=C14 tier=thorough timeout=900 bounds=arena=64,plain-buffer,len:any,T=u8 optcover=put_aligned_fails_with_bytes_to_spare
+// @h props=C14 tier=thorough timeout=900 bounds=arena=64,plain-buffer,len:any,T=u8 optcover=put_aligned_fails_with_bytes_to_spare|padding_was_needed
 c14_align!(c14_align_u8_plain_unsync, unsync::Arena, u8, false);
 
 // ---- put::<T> (unaligned store) -------------------------------------------------------------------
